@@ -14,7 +14,12 @@ fn guard<T>(f: impl FnOnce() -> Result<T, String>) -> Result<T, String> {
 }
 
 fn cls<T>(r: jbk::Result<T>) -> Result<T, String> {
-    r.map_err(|e| err_class(&e).to_string())
+    r.map_err(|e| {
+        if std::env::var("JBKV_DEBUG").is_ok() {
+            eprintln!("DEBUG error: {e}");
+        }
+        err_class(&e).to_string()
+    })
 }
 
 pub fn show_value(container: &jbk::reader::Container, v: &jbk::reader::RawValue, with_content: bool) -> String {
